@@ -70,6 +70,12 @@ def main(argv):
             for v in ('plain', 'san'):
                 print(B.build(v))
             return 0
+        if a.what == 'all':
+            worst = 0
+            for prop in ('C13', 'C14', 'C08', 'C16', 'C09', 'C20'):
+                rc = cmd_check(prop, a.tier, seed, a.runs)
+                worst = max(worst, rc)
+            return worst
         if a.what == 'selftest':
             from . import selftest
             return selftest.main(a.arg, seed)
